@@ -12,7 +12,7 @@ import z3
 
 import black_it.calibrator as cal
 from harness.common import Case, f
-from harness.detcal import det_world, histories_equal, history, make_calibrator, make_sampler, shared_functions
+from harness.detcal import det_world, histories_equal, history, make_calibrator, make_rl_calibrator, make_sampler, rl_baton, shared_functions
 from symx.core import lift
 from symx.memfs import MemFS
 
@@ -41,9 +41,9 @@ ASSUMPTIONS = [
     "numpy Generator contract (draws are a function of seed and draw counter), joblib contract (tasks built in the parent in order, results in submission order)",
     "sklearn/xgboost/scipy estimators and optimiser: deterministic functions of their inputs and random_state (bit-level determinism of those libraries is outside the claim)",
     "halton() and digitize_data are abstracted to uninterpreted pure functions here (their arithmetic is C13/C17's subject); deduplication budget 0 except in the dedicated case",
-    "RL scheduler: not covered here (its single-session schedule independence is C10's result)",
+    "RL scheduler line-ups run on real threads under the baton scheduler with one fixed schedule (schedule independence is C10's result); epsilon symbolic, saving folder unset (an RL scheduler cannot be checkpointed: C04 known finding)",
 ]
-OUTSIDE = ["bit-level determinism of third-party learners", "real multiprocessing scheduling (replaced by the joblib contract)", "RL scheduler line-ups", "more than 4 batches / 3 samplers"]
+OUTSIDE = ["bit-level determinism of third-party learners", "real multiprocessing scheduling (replaced by the joblib contract)", "RL scheduler with more than one session (C10)", "more than 4 batches / 3 samplers"]
 REQUIRED_LABELS = ["same_history", "same_return_value"]
 
 
@@ -84,6 +84,73 @@ def case(name, lineup, nb, E, jobs):
         return bad, info
 
     return Case(name, body, replay, time_budget=400)
+
+
+def case_rl(name, lineup, nb, jobs, agent_first=False):
+    """RL scheduler, single session: same relational check (the saving folder stays unset: an RL scheduler cannot be checkpointed,
+    C04 known finding)."""
+
+    def body(ctx):
+        S = ctx.int("S", 0)
+        shared = shared_functions(ctx)
+        with det_world(None), rl_baton(agent_first):
+            ctx.parallel_reverse = True
+            k = len(lineup) + 2
+            ca = [ctx.int(f"ctorA{i}", 0) for i in range(k)]
+            cb = [ctx.int(f"ctorB{i}", 0) for i in range(k)]
+            for x, y in zip(ca, cb):
+                ctx.solver.add(x.t != y.t)
+            eps = ctx.real("eps", 0, 1)
+            A = make_rl_calibrator(ctx, lineup, S, ca, jobs[0], False, None, shared, eps, 0.5)
+            ra = A.calibrate(nb)
+            B = make_rl_calibrator(ctx, lineup, S, cb, jobs[1], True, None, shared, eps, 0.5)
+            rb = B.calibrate(nb)
+            histories_equal(ctx, history(A), history(B), "same_history", f"{name} RL scheduler (n_jobs {jobs[0]} vs {jobs[1]}, verbose off/on, different constructor seeds)")
+            conds = [lift(x) == lift(y) for x, y in zip(np.asarray(ra[1], dtype=object).ravel(), np.asarray(rb[1], dtype=object).ravel())]
+            ctx.prove(z3.And(z3.BoolVal(ra[0].shape == rb[0].shape), *conds), "same_return_value", name)
+            ctx.sample({"case": name, "rows": len(A.losses_samp), "samplers_used": [int(x) if not hasattr(x, "t") else str(x.t) for x in A.method_samp]})
+
+    def replay(cex):
+        S0 = int(cex.values.get("S") or 0) % 2**32
+        eps = float(f(cex.values.get("eps", 0.3)))
+        for S in (S0, S0 + 1, S0 + 2):
+            bad, info = replay_rl(lineup, nb, jobs, S, eps)
+            if bad:
+                break
+        return bad, info
+
+    return Case(name, body, replay, time_budget=900, split=4)
+
+
+def replay_rl(lineup, nb, jobs, S, eps):
+    from black_it.loss_functions.minkowski import MinkowskiLoss
+    from black_it.schedulers.rl.agents.epsilon_greedy import MABEpsilonGreedy
+    from black_it.schedulers.rl.envs.mab import MABCalibrationEnv
+    from black_it.schedulers.rl.rl_scheduler import RLScheduler
+
+    def run(seeds, n_jobs, verbose):
+        samplers = [make_sampler(kind, B, seeds[i]) for i, (kind, B) in enumerate(lineup)]
+        n_eff = len(samplers) + (0 if any(k == "halton" for k, _ in lineup) else 1)
+        sched = RLScheduler(samplers, MABEpsilonGreedy(n_eff, 0.5, eps, random_state=seeds[-1]), MABCalibrationEnv(n_eff), random_state=seeds[-2])
+        with contextlib.redirect_stdout(io.StringIO()), warnings.catch_warnings():
+            warnings.simplefilter("ignore")
+            c = cal.Calibrator(loss_function=MinkowskiLoss(), real_data=np.array([[0.3], [0.6]]), model=_model, parameters_bounds=[[0.0], [1.0]],
+                               parameters_precision=[1.0 / 256], ensemble_size=1, scheduler=sched, verbose=verbose, random_state=S, n_jobs=n_jobs)
+            c.calibrate(nb)
+        return c
+
+    k = len(lineup) + 2
+    try:
+        a = run([11 + i for i in range(k)], min(jobs[0], 2), False)
+        b = run([97 + 3 * i for i in range(k)], min(jobs[1], 2), True)
+    except Exception as e:  # noqa: BLE001
+        return True, f"calibration raised {type(e).__name__}: {e}"
+    msgs = []
+    for nm in ("params_samp", "losses_samp", "series_samp", "batch_num_samp", "method_samp"):
+        x, y = getattr(a, nm), getattr(b, nm)
+        if x.shape != y.shape or not np.array_equal(x, y):
+            msgs.append(f"{nm} differs")
+    return bool(msgs), f"RL scheduler, seed {S}, eps {eps}, line-up {lineup}, {nb} batches, n_jobs {jobs}: " + ("; ".join(msgs) or "identical histories")
 
 
 def _model(theta, N, seed):  # noqa: N803
@@ -139,6 +206,8 @@ def cases(tier, seed):
         case("halton-cors", [("halton", 2), ("cors", 1)], 3, 1, (1, 4)),
         case("uniform-bestbatch", [("uniform", 2), ("bestbatch", 1)], 3, 1, (1, 2)),
         case("uniform-dedup", [("uniform-dedup", 1)], 3, 1, (1, 2)),
+        case_rl("rl-uniform-halton", [("uniform", 1), ("halton", 1)], 2, (1, 2)),
+        case_rl("rl-halton-rseq-agentfirst", [("halton", 1), ("rseq", 1)], 2, (1, 4), agent_first=True),
     ]
     if tier == "thorough":
         cs += [
@@ -149,6 +218,10 @@ def cases(tier, seed):
             case("halton-pso-rseq", [("halton", 1), ("pso", 1), ("rseq", 1)], 5, 1, (1, 4)),
             case("uniform-bestbatch-bestbatch", [("uniform", 2), ("bestbatch", 1), ("bestbatch", 1)], 4, 1, (1, 2)),
             case("halton-xgb-E2", [("halton", 2), ("xgb", 1)], 4, 2, (1, 2)),
+            case_rl("rl-rseq-uniform", [("rseq", 1), ("uniform", 1)], 3, (1, 4)),
+            case_rl("rl-halton-rseq", [("halton", 1), ("rseq", 1)], 3, (1, 4)),
+            case_rl("rl-uniform-halton-agentfirst", [("uniform", 1), ("halton", 1)], 3, (1, 2), agent_first=True),
+            case_rl("rl-uniform-halton-4", [("uniform", 1), ("halton", 1)], 4, (2, 4)),
         ]
     return cs
 
@@ -156,5 +229,5 @@ def cases(tier, seed):
 MANIFEST = {
     "category": "model_checking",
     "text": "Relational symbolic execution: two real calibrations with the same configuration and the same symbolic calibrator seed but different sampler-constructor seeds, n_jobs (with reversed worker order), verbosity and saving folder are executed in one solver context with every random draw an uninterpreted function of (seed, counter); z3 proves all history cells and return values equal - for every seed at once and for line-ups covering all nine sampler classes, which the single pinned trajectory of the suite cannot.",
-    "note": "Third-party learners/optimiser assumed deterministic given inputs and random_state; halton() and snapping abstracted as pure functions; dedup budget 0 except one case; RL scheduler not covered here (C10); line-ups <= 3 samplers, <= 4 batches quick.",
+    "note": "Third-party learners/optimiser assumed deterministic given inputs and random_state; halton() and snapping abstracted as pure functions; dedup budget 0 except one case; RL scheduler: single session under one fixed thread schedule; line-ups <= 3 samplers, <= 4 batches quick.",
 }
